@@ -318,6 +318,39 @@ fn entry_points_with_short_writers() -> (u64, Vec<Viol>) {
             Err(e) => viols.push(("entry:failed".to_string(), format!("spawn_and_write_streams failed: {e}"), json!({"kind": "entry-short"}))),
         }
     }
+    // a writer that fails mid-way while the child keeps writing more than a pipe buffer to the same
+    // stream: the call must come back (with the writer's error), not hang
+    for which in 0..2 {
+        struct FailS {
+            left: usize,
+        }
+        impl Write for FailS {
+            fn write(&mut self, buf: &[u8]) -> std::io::Result<usize> {
+                if buf.len() > self.left {
+                    return Err(std::io::Error::other("writer full"));
+                }
+                self.left -= buf.len();
+                Ok(buf.len())
+            }
+            fn flush(&mut self) -> std::io::Result<()> {
+                Ok(())
+            }
+        }
+        let (tx, rx) = channel();
+        std::thread::spawn(move || {
+            let script = "head -c 300000 /dev/zero | tr '\\0' 'e' ; head -c 300000 /dev/zero | tr '\\0' 'f' >&2";
+            let mut cmd = Command::new("/bin/sh");
+            cmd.arg("-c").arg(script).stdin(std::process::Stdio::null());
+            let r = if which == 0 { cmd.output_and_write_streams(FailS { left: 20_000 }, FailS { left: usize::MAX }) } else { cmd.output_and_write_streams(FailS { left: usize::MAX }, FailS { left: 20_000 }) };
+            let _ = tx.send(r.map(|_| ()).map_err(|e| e.to_string()));
+        });
+        runs += 1;
+        match rx.recv_timeout(Duration::from_secs(15)) {
+            Err(_) => viols.push(("deadlock:failing-writer".to_string(), format!("output_and_write_streams with a {} writer that fails after 20000 bytes and a child writing 300000 bytes to each stream did not return within 15 s", ["stdout", "stderr"][which]), json!({"kind": "entry-short"}))),
+            Ok(Ok(())) => viols.push(("entry:writer-error-swallowed".to_string(), format!("the {} writer failed but the call reported success", ["stdout", "stderr"][which]), json!({"kind": "entry-short"}))),
+            Ok(Err(_)) => {}
+        }
+    }
     (runs, viols)
 }
 
